@@ -266,3 +266,6 @@ Definition lcd_head : string :=
 Definition lcd_row_text (sep : string) (x : pyline) (w : lcd_row) : string :=
   py_fmt_d 4 (lr_first w) ++ " " ++ sep ++ " " ++ py_fmt_f 4 1 (lr_lat w) ++ " " ++ sep ++ " "
   ++ py_ljust 36 (py_strip (p_line x)) ++ sep ++ " " ++ py_str_list_Z (lr_members w) ++ nl.
+
+(* truthiness of `str or None` (args.arch, args.lines) *)
+Definition py_optstr_truth (o : option string) : bool := match o with Some (String _ _) => true | _ => false end.
